@@ -104,7 +104,6 @@ Print Assumptions sums_of_quotients_parse.
    matrix term  (ci*cj*w_j) * ab[IDX_k] / w_k / Hnuclei  and the factor term  (c*w_j) * rptr[IDX_ELEM_j] / w_k  of Model/RenormText *)
 From Coq Require Import String.
 Theorem live_renorm_text_pieces : renorm_content_fstrings =
-  ["{ci * cj * weight(elements[jele])} * ab[IDX_{spec.alias}] / {weight(spec)} / Hnuclei";
-   "{c * weight(elem)} * rptr[IDX_ELEM_{ename}] / {weight(spec)}"]%string.
+  (["{} * ab[IDX_{}] / {} / Hnuclei"; "{} * rptr[IDX_ELEM_{}] / {}"; "join: + "; "join: + "])%string.
 Proof. reflexivity. Qed.
 Print Assumptions live_renorm_text_pieces.
